@@ -40,6 +40,7 @@ type dvalCase struct {
 	Expect  string    // "", "accept" (valid base), "reject" (injected definite error)
 	What    string    // description for P lines / stats
 	Witness string    // short printable form of the input
+	Vis     []string  // non-nil: tokens of a "visible" C line (multi-file import graph, subject, target)
 }
 
 const dvalTestdataPrefix = "cmd/protoc-gen-go/testdata/"
@@ -91,6 +92,16 @@ func dvalEmit(c *Ctx, cs *dvalCase, o dvalOutcome) {
 	c.Stat("class:" + class)
 	if cs.AST != nil {
 		c.Case("dval", "validate", dvalTokens(cs.AST), []string{class})
+	}
+	if cs.Vis != nil {
+		// the reference resolved / was refused because the file is not imported: compared with
+		// the visibility rule of the model; any other outcome is judged by the expectation below
+		switch {
+		case o.Kind == "ok":
+			c.Case("dval", "visible", cs.Vis, []string{"1"})
+		case o.Kind == "err" && strings.Contains(o.Text, "is not imported"):
+			c.Case("dval", "visible", cs.Vis, []string{"0"})
+		}
 	}
 	switch o.Kind {
 	case "panic", "exit", "hang":
@@ -627,6 +638,9 @@ func famDval(c *Ctx) {
 	for _, cs := range dvalASTCorpus() {
 		push(cs)
 	}
+	for _, cs := range dvalMultiCorpus() {
+		push(cs)
+	}
 	flush()
 	// linked files: the descriptor protos of real, valid files must be accepted
 	linked := dvalLinkedFiles()
@@ -646,6 +660,11 @@ func famDval(c *Ctx) {
 	n := c.N
 	for produced := 0; produced < n; {
 		base := dvalGenValid(c)
+		// (a') multi-file schemas: import visibility
+		for k := 0; k < 6; k++ {
+			push(dvalMultiCase(c))
+			produced++
+		}
 		// (b) the valid base itself, under both AllowUnresolvable settings
 		for _, allow := range []bool{false, true} {
 			g := dvalCopy(base)
